@@ -26,6 +26,15 @@ theorem c14_apply (s t : List Char) (sl sc el ec : Nat) (us' : List Nat)
     ∃ s', Impl.applyChange s (.range sl sc el ec t) = .ok s' ∧ encode16 s' = us' :=
   applyChange_range_spec s t sl sc el ec us' hlf h
 
+/-- `c14_apply` is the guarded (`_partial`) form: without `lfOrCrlf` the statement is false
+(`c14_counterexample_lone_cr`, known finding C14-lone-cr); the guard is decidable and holds for
+every document with `\n` or `\r\n` line ends. -/
+theorem c14_apply_partial (s t : List Char) (sl sc el ec : Nat) (us' : List Nat)
+    (hlf : Spec.lfOrCrlf (encode16 s) = true)
+    (h : Spec.applyChange (encode16 s) (.range sl sc el ec (encode16 t)) = some us') :
+    ∃ s', Impl.applyChange s (.range sl sc el ec t) = .ok s' ∧ encode16 s' = us' :=
+  c14_apply s t sl sc el ec us' hlf h
+
 /-- **A whole `didChange` notification (multi-change, ranged and full-text changes mixed):** each
 change is resolved on the text produced by the previous one, on both sides; the results agree. -/
 theorem c14_changes (s : List Char) (cs : List Impl.Change) (us' : List Nat)
@@ -37,14 +46,25 @@ theorem c14_changes (s : List Char) (cs : List Impl.Change) (us' : List Nat)
 /-- **Every history (clause "for every document and every sequence of incremental or full change
 notifications").**  For every sequence of `didOpen` / `didChange` / `didClose` notifications an
 editor can produce (`Spec.run … = some ed`), starting from an untracked document, the server's
-`Document` agrees with the editor's copy after the whole sequence — and, since every prefix of an
-editor history is an editor history, after every notification: same text, same version, open;
+`Document` agrees with the editor's copy after the whole sequence (and after every notification,
+`c14_history_every_step`): same text, same version, open;
 closed on the server when the editor has closed it.  Induction over the history, no bound. -/
 theorem c14_history (evs : List Impl.Event) (ed : Option Spec.Doc)
     (hlf : Spec.lfHistory none (evs.map encodeEvent) = true)
     (h : Spec.run none (evs.map encodeEvent) = some ed) :
     Agree (Impl.run none evs) ed :=
   run_agree evs none none ed (by intro d hd; cases hd) hlf h
+
+/-- **… after every notification, not only at the end.**  Cut an editor history anywhere
+(`evs = a ++ b`): the prefix `a` is itself an editor history and the server agrees with the
+editor's copy right after it. -/
+theorem c14_history_every_step (a b : List Impl.Event) (ed : Option Spec.Doc)
+    (hlf : Spec.lfHistory none ((a ++ b).map encodeEvent) = true)
+    (h : Spec.run none ((a ++ b).map encodeEvent) = some ed) :
+    ∃ ed1, Spec.run none (a.map encodeEvent) = some ed1 ∧ Agree (Impl.run none a) ed1 := by
+  rw [List.map_append] at hlf h
+  obtain ⟨ed1, h1, _⟩ := Spec.run_prefix _ _ none ed h
+  exact ⟨ed1, h1, c14_history a ed1 (Spec.lfHistory_prefix _ _ none hlf) h1⟩
 
 /-- The same from any agreeing pair of states (so it composes along a session). -/
 theorem c14_history_from (evs : List Impl.Event) (srv : Option Impl.Doc) (ed ed' : Option Spec.Doc)
